@@ -12,7 +12,7 @@ FUNCTIONS = ['multi_knee.multi_knee', 'curvature.multi_knee', 'dfdt.multi_knee',
 STUBS = ['K(l,r): free integer in the detector\'s range (1..len-2; 0..len-2 for a Menger-like detector; None allowed for a Kneedle-like detector) replaces the single-knee detector on points[l..r]',
          'gate(l,r): free real replaces linear_fit.smape_points / linear_r2_points of the end-point line on points[l..r]']
 BOUNDS = dict(quick='L1: n <= 9 points, t2 in {3,4}, cost in {smape, r2}, symbolic t1 >= 0, three detector range contracts (interior / Menger-like / Kneedle-like); '
-                    'L0: real detectors inline on slices of 4 pool curves (n <= 6), one symbolic height',
+                    'L0: real detectors inline on slices of 5 pool curves (n <= 6, one exactly collinear), one symbolic height',
               thorough='L1: n <= 11; L0: 8 pool curves, every position')
 ASSUMPTIONS = ['exact real arithmetic (T1)', 'L1: the detector is any function of the sub-range that respects its range contract (the contract itself is proved per detector in C09 / the inline layer)',
                'y >= 0, x strictly increasing']
@@ -24,7 +24,7 @@ T2MIN = dict(curvature=3, dfdt=3, menger=4, lmethod=4, kneedle=3)
 def cases(tier, seed):
     q = tier == 'quick'
     out = []
-    for ci in ([0, 1, 3, 5] if q else [0, 1, 2, 3, 4, 5, 8, 11]):
+    for ci in ([0, 1, 2, 3, 5] if q else [0, 1, 2, 3, 4, 5, 7, 8, 11]):
         n = len(POOL[ci])
         for pos in ([[n // 2]] if q else [[i] for i in range(n)]):
             for det in DETS:
